@@ -425,8 +425,8 @@ def impl_numtok(case):
                     f.write(file_bytes(text))
                 try:
                     got = canon_num(submat(p)['r']['X'])
-                except ValueError:
-                    got = {'e': 'ValueError'}
+                except Exception as e:
+                    got = {'e': type(e).__name__}
             finally:
                 os.remove(p)
             if got != want:
@@ -834,9 +834,10 @@ def gen_cases(rng, tier):
     for _ in range(1200 if thorough else 130):
         cases.append(gen_fsdir(rng, names))
     for n in rng.sample(names, 60 if thorough else 12):      # Path objects that are no file are treated like names
-        nm = rng.choice([n, n.lower(), './' + n.lower(), n.lower() + '/', 'x/../' + n, n + '//'])
+        nm = rng.choice([n, n.lower(), './' + n.lower(), n.lower() + '/', 'x/../' + n, n + '//', './/./' + n.lower() + '/.', 'a//' + n, './' + n + '/./'])
         cases.append({'op': 'name', 'name': nm, 'aspath': True})
-    for nm in ['', '.', 'xyz', 'a/b', 'blosum', 'PAM', 'H', '62', ',', ', ', 'BLOSUM62, BLOSUM65']:
+    for nm in ['', '.', 'xyz', 'a/b', 'blosum', 'PAM', 'H', '62', ',', ', ', 'BLOSUM62, BLOSUM65', './.', 'a//b/./c/', './', './/', 'nuc/.', './nuc.4.4', 'NUC.4.2/',
+               'a/./b', '..', 'a/..', './..', '.nuc', 'nuc.', '...']:
         cases.append({'op': 'name', 'name': nm, 'aspath': True})
     for n in (names if thorough else ['NUC', 'NUC.4.2', 'NUC.4.4', 'IDENTITY', 'MATCH', 'BLOSUM62', 'PAM250', 'GONNET']):
         cases.append({'op': 'cwdfile', 'fname': n.lower(), 'call': n.lower(), 'aspath': False,
@@ -1061,7 +1062,9 @@ def impl(case):
         d = tempfile.mkdtemp(prefix='C20-cwd-')
         try:
             os.chdir(d)            # an empty working directory: isfile(name) is False for every relative name
-            return _call_name(submat, name, aspath=bool(case.get('aspath')))
+            if case.get('aspath'):
+                return [path_text(name), _call_name(submat, name, aspath=True)]
+            return _call_name(submat, name)
         finally:
             os.chdir(cwd)
             os.rmdir(d)
@@ -1123,7 +1126,9 @@ def model_term(case):
                 ts.append('HSkip')
         return 'out (run_C20h %s)' % coq_list(ts)
     if case['op'] == 'name':
-        return 'out (run_C20 0%%N %s [])' % coq_bs(path_text(case['name']) if case.get('aspath') else case['name'])
+        if case.get('aspath'):
+            return 'out (run_C20p %s)' % coq_bs(case['name'])
+        return 'out (run_C20 0%%N %s [])' % coq_bs(case['name'])
     if case['op'] == 'numfile':
         return numfile_term(case)
     if case['op'] == 'mfile':
@@ -1184,6 +1189,8 @@ def agree(case, implval, modelval):
                                [_model_any(o) if isinstance(o, list) and not (o and isinstance(o[0], str)) else None for o in fin]]
         if case['op'] == 'mfile':
             return implval == [modelval[0], modelval[1], _model_any(modelval[2]), _model_any(modelval[3])]
+        if case['op'] == 'name' and case.get('aspath'):
+            return implval == [modelval[0], _norm_model(modelval[1])]
         if case['op'] == 'numtok':
             return implval == [modelval[0], _model_num(modelval[1])]
         if case['op'] == 'fsdir':
@@ -1331,6 +1338,9 @@ def spec(case, got):
     if case['op'] == 'numtok':
         if not isinstance(got, list) or len(got) < 2:
             return 'driver value %r' % (got,)
+        if len(got) > 2 and isinstance(got[1 if ('.' in case['tok'] or ' 0.5' in got[2][1]) else 0], dict) and \
+                'e' in got[1 if ('.' in case['tok'] or ' 0.5' in got[2][1]) else 0]:
+            return None            # CPython's reader rejects the word: the property does not say what submat must do with it
         if len(got) > 2:
             return 'word %r: int() -> %r, float() -> %r, but as a cell of %r submat read %r' % (case['tok'], got[0], got[1], got[2][1], got[2][2])
         return None
@@ -1355,6 +1365,10 @@ def spec(case, got):
         if not (isinstance(got, list) and len(got) == 4):
             return 'driver value %r' % (got,)
         return compare_matrix(got[3], exp)
+    if case['op'] == 'name' and case.get('aspath') and not case.get('_inner'):
+        if not (isinstance(got, list) and len(got) == 2 and isinstance(got[0], str)):
+            return 'driver value %r' % (got,)
+        return spec(dict(case, _inner=True), got[1])
     if case['op'] == 'name':
         name = path_text(case['name']) if case.get('aspath') else case['name']
         names = _bundled()
@@ -1500,6 +1514,9 @@ def nontrivial(case, got):
                           (['path-arg'] if case.get('aspath') else [])))
     if case['op'] == 'name':
         n = case['name']
+        if case.get('aspath'):
+            got = got[1] if isinstance(got, list) and len(got) == 2 else got
+            marks.append('path-arg')
         if isinstance(got, list) and got and got[0] == 'fnf':
             marks.append('fnf')
         elif n != n.upper():
@@ -1554,6 +1571,8 @@ def histkey(case, got):
     if case['op'] == 'numfile':
         return ['op=numfile', 'numfile:' + numfile_norm(case)[2]]
     if case['op'] == 'name':
+        if case.get('aspath'):
+            got = got[1] if isinstance(got, list) and len(got) == 2 else got
         kind = 'fnf' if (isinstance(got, list) and got and got[0] == 'fnf') else 'bundled' if isinstance(got, list) else 'error'
         return ['op=name', 'name:' + kind]
     n = len(render(case))
@@ -1602,6 +1621,8 @@ def python_snippet(case):
                 lines.append('m = r.get(%d)  # the caller edits its own result (%s)\nif isinstance(m, dict) and m:\n    k = next(iter(m)); m[k][next(iter(m[k]))] = 424242' % (a[1], a[2]))
         return '\n'.join(lines)
     if case['op'] == 'name':
+        if case.get('aspath'):
+            return 'import pathlib; from sugar.data import submat; print(submat(pathlib.Path(%r)))' % case['name']
         return 'from sugar.data import submat; print(submat(%r))' % case['name']
     return ("import tempfile, os, pathlib; from sugar.data import submat\n"
             "f = tempfile.NamedTemporaryFile('wb', delete=False); f.write(%r); f.close()\n"
